@@ -25,6 +25,9 @@ func c02(c *Ctx) {
 	}
 	n := resetR1(c, hu, 0, nil)
 	n += resetR1(c, pu, 0, nil)
+	minLenRule(c, []minLenRow{
+		{fn: "rtp.(*Header).Unmarshal", want: []int{12}, minOnly: true, why: "RFC 3550 fixed header"},
+		{fn: "rtp.(*Packet).Unmarshal", want: []int{12}, minOnly: true, why: "RFC 3550 fixed header, empty payload allowed"}})
 	r.Floor("decoded fields checked by RESET.R1", n, 20)
 	c.wrapScope = map[string]bool{"rtp.(*Header).Unmarshal": true, "rtp.(*Packet).Unmarshal": true}
 	boundsFor(c, "C02", []*ssa.Function{hu, pu, ge, gi})
